@@ -20,7 +20,10 @@ PLAIN = ['i:1', 'i:7', 'D:-2.5', 'D:1.005', 'F:1/3', 'F:-2/7',
          'i:1000000000000', 'D:0.000001', 'i:-1', 'D:0.5']
 USER = [['type', 'P', 'p0', 'F:1/3'],
         ['unit', 'P', 'p7', ['scaled', 'i:7', 'p0']],
-        ['unit', 'P', 'pt', ['term', [['D:0.1', 1], ['p0', 1]]]]]
+        ['unit', 'P', 'pt', ['term', [['D:0.1', 1], ['p0', 1]]]],
+        ['type', 'PQ', 'q0', 'D:0.05'],   # same unit scales, other quantum
+        ['unit', 'PQ', 'q7', ['scaled', 'i:7', 'q0']],
+        ['unit', 'PQ', 'qt', ['term', [['D:0.1', 1], ['q0', 1]]]]]
 
 
 def ratio_lists(alphabet, maxlen):
@@ -164,8 +167,9 @@ def quantities(w, wname):
     if wname == 'money':
         return [(s, None, [t * grid(w, s) for t in TS])
                 for s in ('EUR', 'JPY', 'TND')]
-    return [(s, 'p0', [t * grid(w, s) for t in TS])
-            for s in ('p0', 'p7', 'pt')]
+    return [(s, r, [t * grid(w, s) for t in TS])
+            for s, r in (('p0', 'p0'), ('p7', 'p0'), ('q7', 'q0'),
+                         ('pt', 'p0'), ('qt', 'q0'), ('q0', 'q0'))]
 
 
 def make_world(wname):
